@@ -168,6 +168,11 @@ func (m *Manager) handlePotentialData(ctx context.Context, bz []byte, daHeight u
 		m.logger.Debug("ignoring empty signed data, daHeight: ", daHeight)
 		return
 	}
+	if signedData.Metadata == nil {
+		// the sync loop ignores data without metadata; dereferencing it below would panic
+		m.logger.Debug("ignoring signed data without metadata, daHeight: ", daHeight)
+		return
+	}
 
 	// Early validation to reject junk data
 	if !m.isValidSignedData(&signedData) {
